@@ -41,14 +41,14 @@ func RunHCase(c HCase) (res stats.Result) {
 	tm := cmdhist.Run(timCase)
 	res.Labels = append(res.Labels, "histories", fmt.Sprintf("gpus:%d", c.H.Spec.NumGPUs))
 	for _, l := range tm.Labels {
-		if strings.HasPrefix(l, "several") || strings.HasPrefix(l, "queue-on") || strings.HasPrefix(l, "buffers-in") || l == "code-object-reused" {
+		if strings.HasPrefix(l, "several") || strings.HasPrefix(l, "queue-on") || strings.HasPrefix(l, "buffers-in") || strings.HasPrefix(l, "kernel-reading") || l == "code-object-reused" {
 			res.Labels = append(res.Labels, l)
 		}
 	}
 	kernels := 0
 	for _, q := range c.H.Queues {
 		for _, cmd := range q.Cmds {
-			if cmd.Kind == "kernel" {
+			if cmd.Kind == "kernel" || cmd.Kind == "kernelp" {
 				kernels++
 			}
 		}
